@@ -276,6 +276,8 @@ def run_split(case):
                'callable': (lambda x: x in ('SEP', 'SEP2'))}[mode]
     if mode == 'list' and case.get('form') == 'getitem':
         sep_arg = GetitemSeq(['SEP', 'SEP2'])       # the collection of separators itself is such a sequence
+    one_shot_sep = mode == 'list' and case.get('form') in ('iter', 'gen')     # ... or a one-shot iterator ("an iterable of separators")
+    sep_of = (lambda: iter(['SEP', 'SEP2'])) if one_shot_sep else (lambda: sep_arg)
     sepkind = case.get('sepkind', 'str') if mode == 'scalar' else 'str'
     if sepkind != 'str':
         forms = [b'SEP', bytearray(b'SEP')] if sepkind == 'bytes' else [1, 1.0, True]
@@ -290,11 +292,11 @@ def run_split(case):
     exp = _decode_parts(enc, parts, items, none_mode)
     src_of = lambda: _wrap(items, case['form'])     # noqa
     desc = 'split(%r as %s, sep=%s, maxsplit=%r)' % (items, case['form'], mode if mode == 'callable' else repr(sep_arg), maxsplit)
-    r = _call(iterutils.split, src_of(), sep_arg, maxsplit)
+    r = _call(iterutils.split, src_of(), sep_of(), maxsplit)
     if r != ('ok', exp):
         return out.fail('c09.split.mismatch' + ('.maxsplit' if maxsplit is not None else ''),
                         '%s -> %r; str.split on the corresponding character string %r gives %r i.e. %r' % (desc, r, enc, parts, exp))
-    ri = _call(lambda: list(iterutils.split_iter(src_of(), sep_arg, maxsplit)))
+    ri = _call(lambda: list(iterutils.split_iter(src_of(), sep_of(), maxsplit)))
     if ri != ('ok', exp):
         return out.fail('c09.split.iter-differs', '%s: split_iter gives %r' % (desc, ri))
     nsep = sum(is_sep)
